@@ -547,3 +547,61 @@ func sortFuncs(fns []*ssa.Function) {
 		}
 	}
 }
+
+// ruleRecountAfterChange (C11.siblings/…/recount-after): a function that changes the fill list and
+// refreshes the row counter from it counts after the change: every Count() of Collection.fill whose
+// result is stored into Collection.count is preceded by the Set/Remove of the same function.
+func ruleRecountAfterChange(r *Report) {
+	h := r.Rule("C11.siblings", "S", "", 0)
+	isFill := func(v ssa.Value) bool {
+		fr, ok := fieldOf(bitmapRecvAddr(v))
+		return ok && fr.Struct == "column.Collection" && fr.Field == "fill"
+	}
+	var fns []*ssa.Function
+	for fn := range r.P.modFunc {
+		fns = append(fns, fn)
+	}
+	sortFuncs(fns)
+	for _, fn := range fns {
+		var changes, counts []ssa.Instruction
+		allInstrs(fn, func(ins ssa.Instruction) {
+			cc, _, _ := callCommon(ins)
+			if cc == nil || len(cc.Args) == 0 {
+				return
+			}
+			switch {
+			case methodOn(cc, "github.com/kelindar/bitmap", "Bitmap", "Remove", "Set") && isFill(cc.Args[0]):
+				changes = append(changes, ins)
+			case methodOn(cc, "github.com/kelindar/bitmap", "Bitmap", "Count") && isFill(cc.Args[0]):
+				if v, ok := ins.(ssa.Value); ok {
+					for _, ref := range *v.Referrers() {
+						_ = ref
+					}
+					counts = append(counts, ins)
+				}
+			}
+		})
+		if len(changes) == 0 || len(counts) == 0 {
+			continue
+		}
+		ok := true
+		for _, c := range counts {
+			for _, ch := range changes {
+				// a change in a loop before the count (rollback) dominates it through the loop's exit
+				if !precedes(ch, c) && !(inCycle(ch.Block()) && !inCycle(c.Block()) && reachAvoiding(ch.Block(), c.Block(), nil, nil) && !reachAvoiding(c.Block(), ch.Block(), nil, nil)) {
+					ok = false
+				}
+			}
+		}
+		h.Check(ok, fnName(fn)+"/recount-after", r.P.InstrPos(counts[0]), "the fill list is counted after it was changed", "the row counter is refreshed from the fill list before the list is changed in the same function: Count() stays off by the change until some later transaction recounts")
+	}
+}
+
+// bitmapRecvAddr: the address a bitmap method's receiver was loaded from (or the value itself).
+func bitmapRecvAddr(v ssa.Value) ssa.Value {
+	v = strip(v)
+	if ld, ok := v.(*ssa.UnOp); ok && ld.Op == token.MUL {
+		return ld.X
+	}
+	return v
+}
